@@ -516,7 +516,9 @@ class SymNum:
         p = SymNum._parts(o)
         if p is None: return NotImplemented
         oc, ok, od = p
-        if oc: raise Unsupported("symbolic * symbolic")
+        if oc:
+            if self.c: raise Unsupported("symbolic * symbolic")
+            return o * self          # constant * symbolic
         return SymNum._mk({i: v * ok for i, v in self.c.items()}, self.k * ok, self.d * od)
     __rmul__ = __mul__
 
@@ -525,6 +527,8 @@ class SymNum:
         if p is None: return NotImplemented
         oc, ok, od = p
         if oc: raise Unsupported("division by symbolic")
+        if ok == 0 and not self.c:
+            return math.nan if self.k == 0 else (math.inf if self.k > 0 else -math.inf)
         if ok == 0:
             # numpy float64 semantics (the code under test works on float64 sums): x/0 -> +-inf / nan
             if self > 0: return math.inf
@@ -533,7 +537,9 @@ class SymNum:
         if ok < 0: return (-self) / (-o)
         return SymNum._mk({i: v * od for i, v in self.c.items()}, self.k * od, self.d * ok)
 
-    def __rtruediv__(self, o): raise Unsupported("division by symbolic")
+    def __rtruediv__(self, o):
+        if self.c: raise Unsupported("division by symbolic")
+        return SymNum._mk({}, 0, 1).__add__(o) / Fraction(self.k, self.d) if self.k else SymNum._mk({}, 0, 1).__add__(o) / 0
 
     def _quot(self, ceil):
         if self.d == 1: return self
